@@ -424,7 +424,7 @@ class DerivedAfterUse(Stream):
     pair = "property oracle: pitch lists of op(used chord) vs op(fresh chord), against the closed forms of the statement"
     quick, thorough = 600, 10000
 
-    OPS = ["o", "set_octave", "change_mode", "set_degree", "mod", "getitem", "copy", "invert"]
+    OPS = ["o", "set_octave", "change_mode", "set_degree", "mod", "getitem", "copy", "invert", "transpose", "pars_target", "pars_source"]
 
     def gen(self, rng, n):
         for _ in range(n):
@@ -450,6 +450,12 @@ class DerivedAfterUse(Stream):
             return ch[case["fig2"]]
         if op == "invert":
             return ch.invert(case["k"])
+        if op == "transpose":
+            return ch.transpose(case["k"] + 2)
+        if op in ("pars_target", "pars_source"):
+            from musiclang import Chord
+            other = Chord(element=case["deg"], extension=case["fig2"], tonality=Tonality(*case["t"]))
+            return other.get_parsimonious_voice_leading(ch) if op == "pars_target" else ch.get_parsimonious_voice_leading(other)
         return ch.copy()
 
     def impl(self, case):
@@ -463,13 +469,16 @@ class DerivedAfterUse(Stream):
             fresh = self.apply(mlang.mk_chord(case["chord"]), case)
             same_obj = mlang.mk_chord(case["chord"])
             first = lists(same_obj)
+            # the chord the operation was applied to is still the chord it was: same fields, and a copy of it has the same scale and tones
+            ident = lambda c: [int(c.element), str(c.extension), int(c.tonality.degree), c.tonality.mode, int(c.tonality.octave), int(c.octave)]
+            operand_kept = ident(used) == ident(same_obj) and lists(used) == first and lists(used.copy()) == first
             # analyses of the chord (voicings with more voices than chord tones, patterns) leave its tones alone
             voiced = mlang.mk_chord(case["chord"])
             for nb in (4, 5, 6):
                 voiced.to_voicing(nb_voices=nb)
             tones = lambda c: [[str(x) for x in c.extension_notes], [str(x) for x in c.chord_notes]]
             untouched = lists(voiced) == first and tones(voiced) == tones(mlang.mk_chord(case["chord"]))
-            return {"derived": lists(derived), "fresh": lists(fresh), "stable": lists(same_obj) == first and untouched,
+            return {"derived": lists(derived), "fresh": lists(fresh), "stable": lists(same_obj) == first and untouched, "operand_kept": operand_kept,
                     "id": [int(derived.element), derived.tonality.degree, derived.tonality.mode, derived.tonality.octave, derived.octave]}
         return mlang.guarded(f)
 
@@ -478,6 +487,8 @@ class DerivedAfterUse(Stream):
             return {"sig": f"derived-chord-raises:{case['op']}", "msg": str(r)}
         if r["derived"] != r["fresh"] or not r["stable"]:
             return {"sig": f"derived-chord-stale:{case['op']}", "msg": f"after use {r['derived'][0]} ; from scratch {r['fresh'][0]}"}
+        if not r["operand_kept"]:
+            return {"sig": f"operand-chord-changed:{case['op']}", "msg": "the chord the operation was applied to no longer has the scale / tones / fields it had"}
         # and the scale is the closed form of the statement for the derived chord
         e, td, tm, to, co = r["id"]
         want = [spec_chord_deg({"elem": e, "tdeg": td, "tmode": tm, "toct": to, "coct": co}, j) for j in range(7)]
